@@ -74,7 +74,7 @@ def nums():
 }
 
 
-def run_pipeline(model, source):
+def run_pipeline(model, source, hoist=True):
     from ..absnodes import set_parents, std_hooks
     from ..absprint import print_obj, to_obj
     mod = to_obj(ast.parse(source))
@@ -89,7 +89,8 @@ def run_pipeline(model, source):
         I.call_function(R + 'resolve_names.resolve_names', [mod])
         I.call_function(R + 'util.allow_rename_locals', [mod, False, []])
         I.call_function(R + 'util.allow_rename_globals', [mod, False, []])
-        I.call_function(R + 'rename_literals.rename_literals', [mod])
+        if hoist:
+            I.call_function(R + 'rename_literals.rename_literals', [mod])
         I.call_function(R + 'renamer.rename', [mod], {'prefix_globals': True, 'preserved_globals': []})
     res = I.explore(thunk)
     if len(res) != 1 or res[0][0][0] != 'return':
